@@ -64,5 +64,17 @@ let handle (args : string list) : string =
           ^ "|" ^ String.concat "/" (List.map line_s st.s_lines)
         | _ -> "ERR:events")
      | _ -> "ERR:lines")
+  (* para <show> <fix> <nlines> text... <nfix> (line from to)...
+     answer: <Finish goes on 0/1>|texts of the lines when Finish is called *)
+  | "para" :: show :: fix :: nlines :: r ->
+    let (ts, r) = take (int_of_string nlines) r in
+    (match r with
+     | nfix :: r ->
+       let (fs, _) = parse_n (int_of_string nfix) (fun toks -> match toks with
+         | i :: f :: t :: r -> ((nat_of_int (int_of_string i), (b f, b t)), r)
+         | _ -> failwith "fix") r in
+       let (go, texts) = para_decision { m_show = (show = "1"); m_fix = (fix = "1") } (List.map b ts) fs in
+       bs go ^ "|" ^ String.concat "/" (List.map hl texts)
+     | _ -> "ERR:fixes")
   | _ -> "ERR:bad request"
 let () = serve handle
